@@ -291,7 +291,7 @@ def validate_traces(module, traces, invariants, workdir, batch=12, extra_consts=
 OP = dict(END=0, CR=1, JN=2, TJ=3, DT=4, YD=5, EX=6, RET=7, LK=8, TL=9, UL=10, INC=11, CWAIT=12, CSIG=13, CBC=14,
           BAR=15, JCDEC=16, JCWAIT=17, UCWAIT=18, UCSIG=19, FEWL=20, FEMS=21, ONCE=22, KSET=23, KGET=24,
           SLEEP=25, TLK=26, TJN=27, SETV=28, WAITV=29, NEST=30, PROBE=31, KCREATE=32, KDELETE=33,
-          CANCEL=34, TESTCANCEL=35, BUSY=36, FELK=37, FEUL=38)
+          CANCEL=34, TESTCANCEL=35, BUSY=36, FELK=37, FEUL=38, WAITGE=39, CBCO=40)
 F_PF, F_DETACH, F_STACK, F_ATTR, F_NULLID, F_DIRTY = 1, 2, 4, 8, 16, 32
 
 
@@ -1847,6 +1847,19 @@ def gen_mutex_prog(rng):
 
 
 def gen_cond_prog(rng):
+    if rng.random() < 0.25:
+        # storm: waiters keep entering cond_wait (monotone predicate) while the opener raises the value several times
+        # and broadcasts after releasing the mutex: wake-ups collide with waiters that are just enqueueing themselves
+        m = rng.randint(2, 5)
+        bodies = []
+        for _ in range(rng.randint(2, 4)):
+            lv = sorted(rng.sample(range(1, m + 1), rng.randint(1, min(3, m))))
+            bodies.append([(OP['WAITGE'], 0, v, 0) for v in lv])
+        opener = []
+        for v in range(1, m + 1):
+            opener += [(OP['CBCO'], 0, v, 1)] + ([(OP['YD'], rng.choice((0, 2)), 0, 0)] if rng.random() < 0.4 else [])
+        bodies.insert(rng.randrange(len(bodies) + 1), opener)
+        return {'init': [], 'bodies': _spawn_join(rng, bodies)}
     if rng.random() < 0.3:   # gate: broadcast releases every waiter
         nwait = rng.randint(1, 4)
         bodies = [[(OP['WAITV'], 0, 1, 0)] for _ in range(nwait)]
